@@ -205,6 +205,10 @@ def _memo(tree):
                   and ast.unparse(wb[2]) == "result = f(*args)"
                   and ast.unparse(wb[3]) == f"{dname}[key] = result"
                   and ast.unparse(wb[4]) == "return result")
+            for x in ast.walk(w):
+                if isinstance(x, ast.Delete) or (isinstance(x, ast.Attribute) and x.attr in
+                                                 ("clear", "pop", "popitem") and ast.unparse(x.value) == dname):
+                    ok = False
             if not ok:
                 break
             return {"has": wb[1].lineno, "get": wb[1].body[0].lineno, "compute": wb[2].lineno,
@@ -248,21 +252,88 @@ def extract(repo):
             "hash": hashlib.sha256((src + csrc).encode()).hexdigest()[:16]}
 
 
+def _stmt_lines(nodes):
+    """line of every statement (recursively) in a list of statements"""
+    out = set()
+    for n in nodes:
+        for x in ast.walk(n):
+            if isinstance(x, ast.stmt):
+                out.add(x.lineno)
+            if isinstance(x, ast.ExceptHandler):
+                out.add(x.lineno)
+    return out
+
+
+def _lenient_points(fn):
+    """every statement inside the `if self._cache is not None:` blocks of a method"""
+    lines = set()
+    for n in ast.walk(fn):
+        if isinstance(n, ast.If) and _is_cache_guard(n.test):
+            lines |= _stmt_lines(n.body)
+    return lines
+
+
 def locate(repo):
-    """scheduling points of the protocols: {label: (absolute file, code name, line)}"""
-    e = extract(repo)
-    core, com = os.path.realpath(e["core_path"]), os.path.realpath(e["common_path"])
+    """Scheduling points of the protocols, found structurally in the CURRENT source:
+    {label: (absolute file, code name, line)}.  Where a protocol has the shape the model transcribes, the
+    points are exactly the lines at which the model's coarse steps start (so that a real schedule is a
+    model schedule).  Where it has any other shape (a changed source), EVERY statement inside the protocol
+    body (the `if self._cache is not None:` blocks, the factory lambda, the whole memo wrapper) is a
+    scheduling point, so that new statements are explored too."""
+    tree, src, path = _parse(repo, CORE)
+    ctree, csrc, cpath = _parse(repo, COMMON)
+    core, com = os.path.realpath(path), os.path.realpath(cpath)
     pts = {}
     for fn in ("transpose", "reshape"):
-        for k in ("for", "body", "append"):
-            pts[f"{fn}.{k}"] = (core, fn, e[fn][k])
-    pts["cache.lambda"] = (core, "<lambda>", e["enable_caching"]["lambda"])
-    for fn in ("tocsr", "tocsc"):
-        for k in ("get", "partner", "reget", "final"):
-            pts[f"{fn}.{k}"] = (core, fn, e[fn][k])
-    for k in ("has", "get", "compute", "set"):
-        pts[f"memo.{k}"] = (com, e["memo"]["code"], e["memo"][k])
+        f = _find_class_func(tree, "COO", fn)
+        try:
+            e = _cache_site(f, fn)
+            for k in ("for", "body", "append"):
+                pts[f"{fn}.{k}"] = (core, fn, e[k])
+        except ShapeError:
+            for ln in sorted(_lenient_points(f)):
+                pts[f"{fn}.L{ln}"] = (core, fn, ln)
+    f = _find_class_func(tree, "COO", "enable_caching")
+    try:
+        pts["cache.lambda"] = (core, "<lambda>", _enable_caching(f)["lambda"])
+    except ShapeError:
+        for n in ast.walk(f):
+            if isinstance(n, ast.Lambda):
+                pts[f"cache.lambda{n.lineno}"] = (core, "<lambda>", n.lineno)
+    for fn, args in (("tocsr", ("_csr", "_csc", "tocsr", "tocsc")), ("tocsc", ("_csc", "_csr", "tocsc", "tocsr"))):
+        f = _find_class_func(tree, "COO", fn)
+        try:
+            e = _attr_memo(f, *args)
+            for k in ("get", "partner", "reget", "final"):
+                pts[f"{fn}.{k}"] = (core, fn, e[k])
+        except ShapeError:
+            for ln in sorted(_lenient_points(f)):
+                pts[f"{fn}.L{ln}"] = (core, fn, ln)
+    try:
+        e = _memo(ctree)
+        for k in ("has", "get", "compute", "set"):
+            pts[f"memo.{k}"] = (com, e["code"], e[k])
+    except ShapeError:
+        found = False
+        for n in ctree.body:
+            if isinstance(n, ast.FunctionDef) and n.name == "_memoize_dtype":
+                for w in n.body:
+                    if isinstance(w, ast.FunctionDef):
+                        found = True
+                        for ln in sorted(_stmt_lines(w.body)):
+                            pts[f"memo.L{ln}"] = (com, w.name, ln)
+        if not found:
+            raise
     return pts
+
+
+def shape_ok(repo):
+    """True iff every protocol has the shape the model transcribes (then real schedules are model schedules)"""
+    try:
+        extract(repo)
+        return True
+    except ShapeError:
+        return False
 
 
 def _b(x):
@@ -290,6 +361,8 @@ Definition tocsc_final_via_tocsr : bool := {_b(e['tocsc']['via_partner'])}.
 Definition attr_memo_three_stage : bool := true.
 (* _memoize_dtype.wrapped: `if key in cache: return cache[key]; result = f( *args); cache[key] = result` *)
 Definition memo_check_then_set : bool := true.
+(* ... and nothing in the wrapper removes an entry (no clear / del / pop / popitem on the dict) *)
+Definition memo_no_deletion : bool := true.
 """
     rep = {"S_threads.v": {"status": "ok", "hash": e["hash"],
                            "transpose_lookup": e["transpose"]["mode"], "reshape_lookup": e["reshape"]["mode"],
